@@ -57,6 +57,8 @@ def v_int(ex, fr, st, args, ins):
     v = z3.BitVec('i%d' % k, 64)
     ex.inputs.append(('int', v))
     st.pc = st.pc + (v >= lo, v <= hi)
+    if isinstance(lo, int) and isinstance(hi, int):
+        ex.__dict__.setdefault('int_ranges', {})[str(v)] = (v, lo, hi)
     return v
 
 
